@@ -16,6 +16,7 @@ func checkC03(c *Check) {
 	c.readerHandoff()
 	c.updateBodyPrivate("C03.3 delivered-slice-private")
 	c.handlerDiscipline("C03.4 handler-discipline")
+	c.holdTimerDrainAndReset("C03.4 no-spurious-expiry")
 	// single sender / single receiver of the message channel
 	p := c.P
 	senders, receivers := map[string]bool{}, map[string]bool{}
